@@ -7,7 +7,9 @@ from geneticengine.grammar.decorators import is_builtin
 from geneticengine.grammar.grammar import Grammar
 from geneticengine.solutions.tree import TreeNode
 from geneticengine.grammar.utils import get_arguments
+from geneticengine.grammar.utils import get_generic_parameter
 from geneticengine.grammar.utils import is_abstract
+from geneticengine.grammar.utils import is_annotated
 from geneticengine.grammar.utils import is_terminal
 import dataclasses
 
@@ -59,6 +61,8 @@ def relabel_nodes(
             assert False
 
         for t, c in children:
+            if is_annotated(t):
+                t = get_generic_parameter(t)  # the abstract layers are those of the refined type itself
             nodes, dist, thisway, weighted_nodes = relabel_nodes(
                 c,
                 g,
